@@ -5,6 +5,7 @@ import Srtla.Lemmas.Uplink
 import Srtla.Lemmas.Kalman
 import Srtla.Lemmas.SelectFrame
 import Srtla.Props.C15
+import Srtla.Lemmas.SysDirRtt
 /-!
 # C14 — keepalives flow on every live uplink and RTT comes only from echoes
 
@@ -645,5 +646,154 @@ example :
       = [(5000, 7), (6000, 7)] := by
   refine ⟨by intro l hl; simp [exSys0] at hl; subst hl; rfl, ?_⟩
   decide +kernel
+
+/-! ## Round 3: RTT sampling over `Sys.step` — every event constructor, every link, every run
+
+`C14_rtt_changes_only_by` is about the uplink arm.  `Lemmas/SysDir.lean` walks through `Sys.step` once for a
+two-state relation (`step_run`); `Lemmas/SysDirRtt.lean` reads off what the per-link operations of the OTHER
+arms (client datagram, flush, housekeeping, configuration) do to the tracker: nothing, except that
+`keepalive_packet` / `mark_for_recovery` move the probe bookkeeping (`waiting`, `last_keepalive_sent_ms`) and
+housekeeping's reconnect resets the whole tracker (`RttTracker::reset`). -/
+
+section shell
+variable {F : Type} [Scalar F]
+open Srtla.SysDir
+
+/-- **RTT sampling at shell level, per event** (every constructor of `Sys.Ev`, every link index `j`,
+`l → l'` the record of link `j` before / after the event).  Exactly these things can happen to the tracker:
+
+1. its filter state (Kalman filter, jitter, minima, windows, `last_rtt_measurement_ms`) is untouched — at most
+   the probe bookkeeping `waiting` / `last_keepalive_sent_ms` moves (`SameFilter`);
+2. it is reset (`RttTracker::reset`, up to the probe bookkeeping) — only in a housekeeping event (reconnect of a
+   timed-out link);
+3. it is fed exactly one KEEPALIVE sample — only in an `uplink` event that arrived on THIS link's conn id,
+   carrying a keepalive (0x9000) whose echoed timestamp `ts` gives `0 < now − ts ≤ 10000`, while a probe was
+   outstanding; the sample is `now − ts`;
+4. it is fed exactly one sample by the OTHER sampling path of the code, the cumulative SRT ACK
+   (`handle_srt_ack`, 0x8002; runs on every link): the acknowledged number is above this link's high-water
+   mark and in THIS link's packet log with send time `sent`, `0 < now − sent ≤ 10000`; the sample is
+   `now − sent`.
+
+So a client datagram, a flush, a configuration event, `mark_for_recovery` (failed send, REG_ERR), REG3, a NAK,
+an SRTLA ACK never feed or reset the filter. -/
+theorem C14_rtt_changes_only_by_sys (s : Sys F) (e : Ev) (j : Nat) (l l' : FLink F)
+    (hl : s.links[j]? = some l) (hl' : (step s e).1.links[j]? = some l') :
+    SameFilter l.rtt l'.rtt ∨
+    ((∃ now, e = .hk now) ∧ SameFilter RttTracker.new l'.rtt) ∨
+    (∃ now cid data, e = .uplink now cid data ∧ Codec.getPacketTypeS data = some 0x9000 ∧
+      s.links.findIdx? (·.core.connId == cid) = some j ∧ l.rtt.waiting = true ∧
+      ∃ ts, Codec.extractKeepaliveTimestamp data = .ok (some ts) ∧ 0 < now - ts ∧ now - ts ≤ 10000 ∧
+        l'.rtt = { (l.rtt.updateEstimate (now - ts) now) with waiting := false }) ∨
+    (∃ now cid data, e = .uplink now cid data ∧ Codec.getPacketTypeS data = some 0x8002 ∧
+      ∃ a sent, Codec.parseSrtAck data = .ok (some a) ∧ l.core.highestAcked < toI32 a ∧
+        logFind l.core.log (toI32 a) = some sent ∧ 0 < now - sent ∧ now - sent ≤ 10000 ∧
+        l'.rtt = l.rtt.updateEstimate (now - sent) now) := by
+  obtain ⟨l'', h1, hrun⟩ := (step_run s e).2 j l hl
+  rw [hl'] at h1
+  cases h1
+  cases e with
+  | uplink now cid data =>
+    rcases C14_rtt_changes_only_by s cid data now j l l' hl hl' with (h | h | h) | h | h
+    · exact .inl (.of_eq h)
+    · rw [h]; exact .inl (SameFilter.setW _ _)
+    · rw [h]; exact .inl (SameFilter.set _ _ _)
+    · exact .inr (.inr (.inl ⟨now, cid, data, rfl, h⟩))
+    · exact .inr (.inr (.inr ⟨now, cid, data, rfl, h⟩))
+  | client now pkt =>
+    have hn : ∀ op, op = Op.kaEcho ∨ op = .srtAck ∨ op = .reconnect → ¬ evOps s (.client now pkt) j op := by
+      intro op hop hA
+      have hA' : clientOps op := hA
+      unfold clientOps at hA'
+      rcases hop with rfl | rfl | rfl <;> rcases hA' with h | h | h | h | h <;> cases h
+    rcases rtt_run hrun (hn _ (.inl rfl)) (hn _ (.inr (.inl rfl))) with h | ⟨hr, -⟩
+    · exact .inl h
+    · exact absurd hr (hn _ (.inr (.inr rfl)))
+  | flush now =>
+    have hn : ∀ op, op ≠ Op.take → ¬ evOps s (.flush now) j op := fun op hop hA => hop hA
+    rcases rtt_run hrun (hn _ (by decide)) (hn _ (by decide)) with h | ⟨hr, -⟩
+    · exact .inl h
+    · exact absurd hr (hn _ (by decide))
+  | hk now =>
+    have hn : ∀ op, op = Op.kaEcho ∨ op = .srtAck → ¬ evOps s (.hk now) j op := by
+      intro op hop hA
+      have hA' : hkOps s.cfg.classic op := hA
+      unfold hkOps at hA'
+      rcases hop with rfl | rfl <;> rcases hA' with h | h | h | h | h | ⟨h, -⟩ <;> cases h
+    rcases rtt_run hrun (hn _ (.inl rfl)) (hn _ (.inr rfl)) with h | ⟨-, h⟩
+    · exact .inl h
+    · exact .inr (.inl ⟨⟨now, rfl⟩, h⟩)
+  | setCfg cfg => rw [hrun.eq_of_none (fun _ h => h)]; exact .inl (.refl _)
+  | crit d => rw [hrun.eq_of_none (fun _ h => h)]; exact .inl (.refl _)
+  | failNext cid => rw [hrun.eq_of_none (fun _ h => h)]; exact .inl (.refl _)
+
+/-- **Along any run** (`C14_sample_only_from_echo_sys`): for every run `pre ++ [e]` of the shell from ANY
+state, the last event changes the FILTER state of link `j`'s RTT tracker only
+
+* by a keepalive echo: an `uplink` event on that link's conn id, type 0x9000, received while a probe was
+  outstanding, with `0 < now − ts ≤ 10000` — the one sample `now − ts`;
+* by the cumulative-SRT-ACK sampling path (type 0x8002, a logged packet of this link, `0 < now − sent ≤ 10000`);
+* by the reset of a housekeeping reconnect.
+
+In every other case the smoothed RTT, the Kalman state, the minimum and the measurement stamp after the event
+equal those before it. -/
+theorem C14_sample_only_from_echo_sys (s : Sys F) (pre : List Ev) (e : Ev) (j : Nat) (l l' : FLink F)
+    (hl : (Sys.run s pre).1.links[j]? = some l) (hl' : (Sys.run s (pre ++ [e])).1.links[j]? = some l') :
+    (l'.rtt.kalman = l.rtt.kalman ∧ l'.rtt.lastRttMeasMs = l.rtt.lastRttMeasMs ∧ l'.rtt.rttMin = l.rtt.rttMin ∧
+      l'.rtt.estimated = l.rtt.estimated ∧ l'.rtt.smooth = l.rtt.smooth) ∨
+    ((∃ now, e = .hk now) ∧ SameFilter RttTracker.new l'.rtt) ∨
+    (∃ now cid data, e = .uplink now cid data ∧ Codec.getPacketTypeS data = some 0x9000 ∧
+      (Sys.run s pre).1.links.findIdx? (·.core.connId == cid) = some j ∧ l.rtt.waiting = true ∧
+      ∃ ts, Codec.extractKeepaliveTimestamp data = .ok (some ts) ∧ 0 < now - ts ∧ now - ts ≤ 10000 ∧
+        l'.rtt = { (l.rtt.updateEstimate (now - ts) now) with waiting := false }) ∨
+    (∃ now cid data, e = .uplink now cid data ∧ Codec.getPacketTypeS data = some 0x8002 ∧
+      ∃ a sent, Codec.parseSrtAck data = .ok (some a) ∧ l.core.highestAcked < toI32 a ∧
+        logFind l.core.log (toI32 a) = some sent ∧ 0 < now - sent ∧ now - sent ≤ 10000 ∧
+        l'.rtt = l.rtt.updateEstimate (now - sent) now) := by
+  have hs : (Sys.run s (pre ++ [e])).1 = (step (Sys.run s pre).1 e).1 := by rw [run_append]; rfl
+  rw [hs] at hl'
+  rcases C14_rtt_changes_only_by_sys _ e j l l' hl hl' with h | h | h | h
+  · exact .inl h.fields
+  · exact .inr (.inl h)
+  · exact .inr (.inr (.inl h))
+  · exact .inr (.inr (.inr h))
+
+end shell
+
+section shellField
+variable {F : Type} [Field F] [LinearOrder F] [IsStrictOrderedRing F] [FloorRing F] (e : F → F)
+
+local notation "𝕊" => fieldScalar F e
+
+/-- **No event makes the smoothed RTT negative** (exact arithmetic over an ordered field, any `exp`): in every
+state reached by ANY run of the shell from ANY state — whatever echoes (timely, late, duplicated, truncated,
+zero / future timestamps), SRT ACKs, resets and ticks it contains — `get_smooth_rtt_ms` of every link is `≥ 0`.
+(The finiteness clause is about IEEE floats and stays as in `C14_smooth_float_nan` + monitor `smooth-rtt-invalid`.) -/
+theorem C14_smooth_nonneg_run (s : Sys F) (evs : List Ev) :
+    ∀ l ∈ (@Sys.run F 𝕊 s evs).1.links, 0 ≤ @RttTracker.smooth F 𝕊 l.rtt :=
+  fun l _ => C14_smooth_nonneg e l.rtt
+
+end shellField
+
+/-- Non-vacuity of `C14_rtt_changes_only_by_sys` on `exSys` with a probe outstanding: the echo at 5000 is case 3
+(the filter is fed: measurement stamp 0 → 5000); a client datagram, a flush and a housekeeping tick at 5000 are
+case 1 (stamp unchanged; the tick only re-arms / keeps the probe); housekeeping at 20000 (link timed out, due)
+is case 2 (tracker reset). -/
+example :
+    let s : Sys Int := { exSys with links := [exLinkW] }
+    ((@step Int Select.fixScalar s (.uplink 5000 7 exEcho)).1.links.map fun l => (l.rtt.lastRttMeasMs, l.rtt.waiting)) = [(5000, false)] ∧
+    ((@step Int Select.fixScalar s (.client 5000 [0, 0, 0, 9, 0, 0, 0, 0])).1.links.map fun l => (l.rtt.lastRttMeasMs, l.rtt.waiting)) = [(0, true)] ∧
+    ((@step Int Select.fixScalar s (.flush 5000)).1.links.map fun l => (l.rtt.lastRttMeasMs, l.rtt.waiting)) = [(0, true)] ∧
+    ((@step Int Select.fixScalar s (.hk 5000)).1.links.map fun l => (l.rtt.lastRttMeasMs, l.rtt.waiting)) = [(0, true)] ∧
+    ((@step Int Select.fixScalar (@step Int Select.fixScalar s (.uplink 5000 7 exEcho)).1 (.hk 20000)).1.links.map
+      fun l => (l.rtt.lastRttMeasMs, l.rtt.waiting, l.core.connected)) = [(0, false, false)] := by
+  decide +kernel
+
+example (pre : List Ev) (e : Ev) (j : Nat) (l l' : FLink Int)
+    (hl : (@Sys.run Int Select.fixScalar exSys pre).1.links[j]? = some l)
+    (hl' : (@Sys.run Int Select.fixScalar exSys (pre ++ [e])).1.links[j]? = some l') :=
+  @C14_sample_only_from_echo_sys Int Select.fixScalar exSys pre e j l l' hl hl'
+
+example (evs : List Ev) := C14_smooth_nonneg_run (fun x : ℚ => 1 / (1 - x))
+  ({ links := [], reg := Reg.Reg.new [] [] } : Sys ℚ) evs
 
 end Srtla.Props.C14
